@@ -33,6 +33,8 @@ def apply_mutation(P, cls, rules, mu):
         r.first_match_alternation = mu[2]
     elif kind == "exclude":
         r.exclude_rule(rules[mu[2]])
+    elif kind == "clear":
+        P.ParseCache.clear_caches()      # changes nothing of the grammar; what follows must take effect as usual
     elif kind == "failed_load":
         # a grammar load that FAILS - in this class or in an unrelated one -: a syntax error (ParseError before anything is
         # built), or an exception half-way through the construction (`=/` on a rule without definition).  It changes nothing
@@ -56,8 +58,15 @@ def final_ast(gr, mus):
             gr[mu[1]][1] = mu[2]
         elif mu[0] in ("extend", "extend_text"):
             gr[mu[1]][1] = ("alt", [gr[mu[1]][1], mu[2]], False)
-        elif mu[0] == "failed_load":
+        elif mu[0] in ("failed_load", "clear"):
             pass
+        elif mu[0] == "flag":
+            # the setter writes the flag of the rule's CURRENT top-level alternation (nothing when the definition is none)
+            b = gr[mu[1]][1]
+            if b[0] == "alt":
+                gr[mu[1]][1] = ("alt", b[1], bool(mu[2]))
+        elif mu[0] == "exclude":
+            gr[mu[1]][2] = mu[2]
         else:
             return None
     return [tuple(r) for r in gr]
@@ -93,6 +102,8 @@ def gen_history(rng, gg):
                 mus.append(("exclude", k, rng.randrange(k + 1, n)))
             else:
                 mus.append(("flag", k, True))
+    if rng.random() < 0.25:
+        mus.insert(rng.randrange(len(mus) + 1), ("clear", 0))
     if rng.random() < 0.25:
         # a failing load somewhere in the history (before the mutation whose effect is observed)
         mus.insert(rng.randrange(len(mus)), ("failed_load", rng.randrange(2), rng.randrange(3)))
@@ -162,6 +173,10 @@ def run_history(P, gr, strings, mus, warm=True, between=True):
 
 
 CORPUS = [
+    ([("r0", ("rep", 1, None, ("ref", 1)), None), ("r1", ("lit", "a", False), None)], ["abab", "aab", "ba"],
+     [("clear", 0), ("redefine", 1, ("lit", "b", False))]),
+    ([("r0", ("rep", 0, None, ("ref", 1)), None), ("r1", ("alt", [("lit", "a", False), ("lit", "ab", False)], False), None)], ["abcabc", "ab", "abc"],
+     [("flag", 1, True), ("extend_text", 1, ("lit", "abc", False))]),
     ([("r0", ("rep", 1, None, ("ref", 1)), None), ("r1", ("lit", "a", False), None)], ["abab", "aab", "ba"],
      [("failed_load", 0, 0), ("redefine", 1, ("lit", "b", False))]),
     ([("r0", ("rep", 0, None, ("ref", 1)), None), ("r1", ("lit", "a", False), None)], ["abab", "aab", "ba"],
